@@ -62,7 +62,30 @@ def gen_config(rng, alpha_kinds=("fixed", "single"), allow_fail=True):
     # universe / alpha
     entry = {}
     late_data = {}
-    if alpha == "fixed":
+    if alpha == "topn":
+        # signal-driven: the repository's TopNMomentumAlphaModel over a momentum signal; long-only, data from the
+        # entry day on, at most ... N in {1, 2} keeps the weights 1/N dyadic
+        cfg["lookback"] = rng.choice([1, 2, 3])
+        cfg["topn"] = rng.choice([1, 2])
+        cfg["kind"], cfg["par"] = "dw", rng.choice(["0", "1/8", "1/4"])
+        kind = "dw"
+        cfg["weights"] = {}
+        for a in assets:
+            k = rng.random()
+            if k < 0.55:
+                entry[a] = 0
+            elif k < 0.8:
+                entry[a] = rng.choice(closes)
+            elif k < 0.92:
+                entry[a] = rng.choice(closes) + 1
+            else:
+                entry[a] = -1
+            if entry[a] > start:
+                late_data[a] = entry[a] // 1440
+        if not any(e == 0 for e in entry.values()):
+            entry[assets[0]] = 0
+            late_data.pop(assets[0], None)
+    elif alpha == "fixed":
         for a in assets:
             entry[a] = 0
         keys = [a for a in assets if rng.random() < 0.85] or assets[:1]
@@ -111,9 +134,9 @@ def gen_config(rng, alpha_kinds=("fixed", "single"), allow_fail=True):
                 continue                                        # a missing day (gap)
             o = rng.choice(PRICE_LEVELS)
             c = rng.choice(PRICE_LEVELS)
-            if rng.random() < 0.05:
+            if rng.random() < 0.05 and not (alpha == "topn" and d == first):
                 o = 0                                           # a missing cell (also on the very first bar)
-            if rng.random() < 0.05:
+            if rng.random() < 0.05 and not (alpha == "topn" and d == first):
                 c = 0
             bars[d] = [o, c]
         if bars:
@@ -141,9 +164,11 @@ def cfg_tla(c):
     par = Fraction(c["par"])
     market = fn(c["market"], lambda bars: fn(dict((int(d), v) for d, v in bars.items()), lambda oc: "<<%d, %d>>" % tuple(oc), q=False))
     return ('[start |-> %d, end |-> %d, burn |-> %d, sched |-> "%s", wd |-> %d, kind |-> "%s", par |-> <<%d, %d>>, '
-            'fee |-> [kind |-> "%s", c |-> %d, t |-> %d], cash |-> %d, alpha |-> "%s", weights |-> %s, entry |-> %s, market |-> %s]'
+            'fee |-> [kind |-> "%s", c |-> %d, t |-> %d], cash |-> %d, alpha |-> "%s", weights |-> %s, entry |-> %s, market |-> %s, '
+            'lookback |-> %d, topn |-> %d]'
             % (c["start"], c["end"], c["burn"], c["sched"], c["wd"], c["kind"], par.numerator, par.denominator,
-               c["fee"]["kind"], c["fee"]["c"], c["fee"]["t"], c["cash"], c["alpha"], fn(c["weights"], str), fn(c["entry"], str), market))
+               c["fee"]["kind"], c["fee"]["c"], c["fee"]["t"], c["cash"], c["alpha"], fn(c["weights"], str), fn(c["entry"], str), market,
+               c.get("lookback", 0), c.get("topn", 1)))
 
 
 def cases_module(cfgs):
@@ -214,6 +239,17 @@ def build_session(c, csv_dir, signals_factory=None, alpha_factory=None, data_sou
         syms = sorted(c["market"])
         data_sources = [CSVDailyBarDataSource(csv_dir, Equity, csv_symbols=syms)]
     dh = BacktestDataHandler(universe, data_sources=data_sources)
+    if c["alpha"] == "topn" and signals_factory is None and alpha_factory is None:
+        from qstrader.signals.momentum import MomentumSignal
+        from qstrader.signals.signals_collection import SignalsCollection
+        import importlib.util
+        from .common import REPO
+        spec = importlib.util.spec_from_file_location("qsv_momentum_taa", os.path.join(REPO, "examples", "momentum_taa.py"))
+        mod = importlib.util.module_from_spec(spec)
+        spec.loader.exec_module(mod)
+        L, N = c["lookback"], c["topn"]
+        signals_factory = lambda start, uni, handler: SignalsCollection({"momentum": MomentumSignal(start, uni, lookbacks=[L])}, handler)
+        alpha_factory = lambda sig, uni, handler: mod.TopNMomentumAlphaModel(sig, L, N, uni, handler)
     signals = signals_factory(ts(c["start"]), universe, dh) if signals_factory else None
     if alpha_factory is not None:
         alpha = alpha_factory(signals, universe, dh)
